@@ -5,7 +5,7 @@
     need the whole engine (at most one start per attempt across duplicate pushes,
     restarts and commands) are the monitor clauses (2,2) (2,4) of [EngineMon]. *)
 From Coq Require Import List ZArith Bool Arith.
-From FF Require Import Sx StoreModel StoreCheck TaskRun TaskRunFacts Engine EngineFacts.
+From FF Require Import Sx StoreModel StoreCheck TaskRun TaskRunFacts Engine EngineFacts EngineSettle EngineLive.
 Import ListNotations.
 Local Open Scope Z_scope.
 
@@ -101,3 +101,19 @@ Proof.
   destruct unvalidated_refuted as (s & Hr & _ & Hst & H2 & _). exists s. repeat split; assumption.
 Qed.
 Print Assumptions C02_engine_unvalidated_refuted.
+
+(** with commands issued and picked up at quiescent points the code as it is needs no hypothesis about
+    deliveries ([validate] arbitrary): at most one main-action start per attempt, crashes and restarts included *)
+Theorem C02_engine_quiet_commands_once_per_attempt : forall tasks deps validate (rank : Z -> nat),
+  NoDup tasks ->
+  (forall t d, In d (deps t) -> (rank d < rank t)%nat) ->
+  (forall t d, In t tasks -> In d (deps t) -> In d tasks) ->
+  forall ls s t s', run tasks deps validate true true boot ls = Some s ->
+  step tasks deps validate true true s (MainStart t) = Some s' -> started s t = false /\ started s' t = true.
+Proof.
+  intros tasks deps validate rank Hnd Hrank Hclosed ls s t s' Hr Hs.
+  apply (quiet_main_start_once tasks deps validate s t s'); [| |exact Hs].
+  - exact (invq_reach tasks deps validate rank Hnd Hrank Hclosed ls boot s (invq_boot tasks deps) Hr).
+  - exact (sinv_reach tasks deps validate rank Hnd Hrank Hclosed ls boot s (invq_boot tasks deps) sinv_boot Hr).
+Qed.
+Print Assumptions C02_engine_quiet_commands_once_per_attempt.
